@@ -91,6 +91,24 @@ example : ∃ s : St (Nat × Nat), Reachable .fresh wKey wQ s ∧ s.pc 1 = 4 ∧
     have : ((run .fresh wKey wQ St.init wSched).map fun s => s.pc 2) = some 4 := by decide
     rw [hrun] at this; simpa using this
 
+/-! ### round 5c: a query function that does not return (panic / runtime.Goexit) — what the model does -/
+
+/-- WITNESS SCHEDULE: goroutines 0, 1 and 3 read key 0, the fn of 0 aborts.  0 registers, 1 joins, 0 starts its
+query and aborts (pc 5: its own panic / Goexit), 1 wakes up on the object released WITHOUT a value and panics in
+doTake's `val.([]byte)` (pc 6: an interface-conversion error, not 0's panic value), and a later reader 3 finds the
+key free again, loads and returns the answer of ITS flight (flight 1): the barrier is released, nothing wrong is
+returned to anybody. -/
+theorem aborting_leader_witness :
+    ((runA (fun t => t = 0) (fun _ => 0) wQ St.init [0, 1, 0, 0, 1, 3, 3, 3]).map
+      fun s => (s.pc 0, s.pc 1, s.got 0, s.got 1, s.pc 3, s.got 3, s.calls 0)) = some (5, 6, none, none, 4, some (0, 1), none) := by
+  rfl
+
+/-- with a leader that returns, the same schedule hands the follower the leader's answer (flight 0). -/
+theorem returning_leader_same_schedule :
+    ((runA (fun _ => false) (fun _ => 0) wQ St.init [0, 1, 0, 0, 1, 3, 3, 3]).map
+      fun s => (s.pc 0, s.pc 1, s.got 0, s.got 1, s.pc 3, s.got 3)) = some (4, 4, some (0, 0), some (0, 0), 4, some (0, 1)) := by
+  rfl
+
 /-! ### the caller's options reach every node (for every constructor and every Options value) -/
 
 /-- if every hop of the table forwards, the nodes of an instance built by ANY constructor are configured with
